@@ -95,8 +95,11 @@ def concatenate(signals, /, axis=0):
         if not all(type(s) is sig_type for s in signals):
             raise TypeError("All signals must have same type!")
 
-    if not isinstance(axis, str) and (axis := operator.index(axis)) < 0:
-        axis += signals[0].ndim
+    if not isinstance(axis, str):
+        ndim = signals[0].ndim
+        if not -ndim <= (axis := operator.index(axis)) < ndim:
+            raise ValueError(f"axis {axis} is out of bounds for {ndim} dimensions.")
+        axis %= ndim
 
     # Equal up to rounding in unit conversions: astropy's default relative tolerance
     # of 1e-5 would let through rates that drift apart by whole samples within
